@@ -54,6 +54,32 @@ Definition spec_rules_of (ver : bytes) : option spec_rules :=
      | (v, r) :: l' => if bytes_eqb ver v then Some r else go l'
      end) spec_table.
 
+(* versions whose power levels must be integer literals (v10 and later; MSC3667 is the proposal
+   that introduced the rule; MSC3787 is based on v9 and keeps the lenient spelling) -- hand
+   written, never read from the generated table *)
+Definition spec_int_level_versions : list bytes :=
+  [ bs "10"; bs "11"; bs "12"; bs "org.matrix.msc4014"; bs "org.matrix.msc3667"; bs "org.matrix.hydra.11" ].
+
+Definition spec_int_levels (ver : bytes) : bool := mem_bytes ver spec_int_level_versions.
+
+(* the switches a conforming implementation of version ver has, derived from the hand-written
+   matrix above only. The specification oracles (the prop operations of C07 and C08) read the events with
+   these, never with the switches generated from eventversion.go, so that a rewired table entry
+   in the source makes the implementation disagree with the oracle on concrete inputs. *)
+Definition spec_flags_of (ver : bytes) : option ver_flags :=
+  match spec_rules_of ver with
+  | None => None
+  | Some sv =>
+      Some {| vf_knocking := sr_knock sv;
+              vf_restricted := Some (sr_restricted sv);
+              vf_pl_check := if sr_v12 sv then PlV3 else if sr_notifications sv then PlV2 else PlV1;
+              vf_int_levels := spec_int_levels ver;
+              vf_create_check := if sr_v12 sv then CrV3 else if sr_creator_required sv then CrV1 else CrV2;
+              vf_priv_creators := sr_v12 sv;
+              vf_pseudo_ids := sr_pseudo sv;
+              vf_event_v3 := sr_v12 sv |}
+  end.
+
 (* ---------- the departures (DESIGN.md 6.1) ---------- *)
 Definition dep1_leave_to_leave : bool := true.        (* one's own leave -> leave is allowed *)
 Definition dep2_unban_needs_ban_level_only : bool := true.
